@@ -58,7 +58,7 @@ PROPS = {
                      "ZeroHashes initialised with the hash in use", "typed-helper theorems need limit+31 / limit+3 / bitlimit+255 < 2^64 (C08_byteList_limit_wraps records the wrap beyond)",
                      "branches where uint8 j reaches 64 need count > 2^63: covered by proof only"],
         trusted=COMMON_TRUST + ["mkLeaf formula written twice (Go and Lean)"]),
-    "C18": P(18, ["C18"],
+    "C18": P(18, ["C18"], tie=["bitfields"], extra_modules=["ZtypV.Proofs.Go2LeanTie"],
         rule="model obs == Go obs (CORR) for every bf.* op; PROP verdict computed on List Bool only (unpack, re-pack with Spec.packBits, compare; counts/covers/get/set on the bit list); "
              "quick: all byte strings <= 2 bytes x limits/lengths 0..40 + seed-chosen 1% slice of the 3-byte space, all per-string helpers with every index (incl. panic region), Covers on all 1-byte pairs + sampled 2-byte pairs, "
              "random strings <= 70 bytes around 8*len / limit / 2^k boundaries; thorough: all 3-byte strings with first byte = seed mod 8 x limits 0..40; distinct = distinct op lines",
@@ -67,7 +67,7 @@ PROPS = {
         assumptions=["b.length < 2^64 where len is converted to uint64", "BitvectorCheck: n + 7 < 2^64; for n >= 2^64-7 the Go code wraps and accepts exactly the empty string (bitvectorCheck_wrapped; same arithmetic as known finding D19; generator does not emit these)",
                      "len/ones/zero PROP only on valid bitlist encodings, get/set PROP only for indices inside the slice (CORR everywhere)"],
         trusted=COMMON_TRUST + ["Lean core UInt64/UInt8 semantics = Go uint64/uint8", "math/bits.OnesCount8 modelled by its specification"]),
-    "C09": P(9, ["C09"],
+    "C09": P(9, ["C09", "C09b"], extra_modules=["ZtypV.Props.C09b"],
         rule="CORR: model obs == Go obs for every fl.enc/fl.dec op; PROP: fl.enc bytes = Spec serialize, ByteLength = length, FixedLength = length (fixed) / 0 (variable); fl.dec value read back from the destination struct = V for priors fresh/short/long "
              "(destination first decodes a derived shorter/longer value); every boundary length/limit per element kind + random compositions; distinct = distinct (type shape, value shape, prior, outcome)",
         explanation="C09_enc (flatEncode = ok(serialize), ByteLength = length), C09_fixedLength, C09_dec (decoding serialize t v into a destination with ANY prior content returns exactly v), C09_roundtrip, C09_accepts_valid - all wf types, all values",
@@ -132,7 +132,7 @@ PROPS = {
         assumptions=["bitLensOk (every Bitvector N+7 < 2^64, every Bitlist N+8 < 2^64): without it the property is false (C15_eq_full_false; recorded known finding D19)",
                      "maxSize < 2^64 (property text)", "ContainerType's offsetsCount modelled as Nat (a Go slice has < 2^63 elements)"],
         trusted=COMMON_TRUST + ["independent big-integer size computation and witness builder in harness/ops_sizes.go (used to pick witnesses only)"]),
-    "C16": P(16, ["C16"],
+    "C16": P(16, ["C16"], tie=["tree"], extra_modules=["ZtypV.Proofs.Go2LeanTie"],
         rule="model obs == Go obs (CORR) for every g64.* op; PROP verdict computed on Nat (Nat.log2, paths, minimal LE bytes) independent of the model; "
              "all values < 2^17 (thorough; quick: < 2^12 + 1/16 slice), 2^k and 2^k±1, random values per bit-length class; distinct = distinct op lines",
         explanation="BitIndex/BitLength/CoverDepth, all Gindex64 methods, the bit iterator, ToGindex64 and the three byte encodings are proved equal to their "
@@ -140,6 +140,6 @@ PROPS = {
         assumptions=["Gindex interface values returned by Gindex64 methods are Gindex64 (harness type-asserts)",
                      "Left/Right integer equality only when g < 2^63 (otherwise left_wrap: mod 2^64)",
                      "Subtree/IsLeft properties for g >= 2; nav/iter PROP skipped for the invalid index 0 (CORR still checked)"],
-        trusted=COMMON_TRUST + ["Lean core UInt64/UInt8 semantics = Go uint64/uint8 (shift >= 64 handled by shl64/shr64 guards)",
+        trusted=COMMON_TRUST + ["go2lean translator (harness/cmd/go2lean): Go semantics of the integer subset, constants via go/types; second static tie for BitIndex/BitLength/CoverDepth, the Gindex64 methods, ToGindex64, BitIter.Next", "Lean core UInt64/UInt8 semantics = Go uint64/uint8 (shift >= 64 handled by shl64/shr64 guards)",
                  "encoding/binary PutUint64 modelled by putLE64/putBE64"]),
 }
